@@ -180,6 +180,13 @@ def run_perc(case):
                     draws = (draws + [0] * len(es))[:len(es)]
                 tr["leaves"].append({"draws": draws, "n": n, "ok": bool(ok)})
             tr["exhaustive"] = len(tr["leaves"]) == b ** len(es)
+            if es and 0 < a < b and len(tr["leaves"]) == 1 and not tr["draws_known"]:
+                # no draw reached the random module: not enumerable unless the helper is deterministic
+                vals = {gcmpy.bond_percolate(G, phi) for _ in range(12)}
+                if len(vals) > 1:
+                    tr["exhaustive"] = False
+                    tr["undecided"] = "results vary although no draw reached the random module (other RNG)"
+                    tr["leaves"] = []
         else:
             rng = _r.Random(case["mode"][1])
             tr["draws_known"] = False
